@@ -3,8 +3,11 @@
 package kernel
 
 import (
+	"time"
+
 	"github.com/MixinNetwork/mixin/common"
 	"github.com/MixinNetwork/mixin/crypto"
+	"github.com/MixinNetwork/mixin/kernel/internal/clock"
 	"github.com/MixinNetwork/mixin/storage"
 	"github.com/dgraph-io/ristretto/v2"
 )
@@ -200,4 +203,57 @@ func (node *Node) VerifC10ChainWithInfo(chainId crypto.Hash, info *CNode, establ
 		chain.State = &ChainState{RoundLinks: make(map[crypto.Hash]uint64)}
 	}
 	return chain
+}
+
+// ---- consumers of the cached membership slices (C29) -------------------------
+
+func (s *verifC10MemStore) CacheRetrieveTransactions(limit int) ([]*common.VersionedTransaction, error) {
+	return nil, nil
+}
+
+func (s *verifC10MemStore) CacheRemoveTransactions(hashes []crypto.Hash) error { return nil }
+
+// VerifC10InstallChains registers a chain for every id: kind 0 has no state,
+// kind 1 a final round started an hour ago (lagging), kind 2 a final round
+// started now (leading).  self becomes the local node.
+func (node *Node) VerifC10InstallChains(self crypto.Hash, ids []crypto.Hash, kinds []int) {
+	now := clock.NowUnixNano()
+	node.IdForNetwork = self
+	node.chains.Lock()
+	for i, id := range ids {
+		chain := &Chain{node: node, ChainId: id, persistStore: node.persistStore}
+		switch kinds[i] {
+		case 1:
+			chain.State = &ChainState{RoundLinks: make(map[crypto.Hash]uint64),
+				FinalRound: &FinalRound{NodeId: id, Start: now - uint64(time.Hour)}}
+		case 2:
+			chain.State = &ChainState{RoundLinks: make(map[crypto.Hash]uint64),
+				FinalRound: &FinalRound{NodeId: id, Start: now + uint64(time.Hour)}}
+		}
+		node.chains.m[id] = chain
+	}
+	node.chain = node.chains.m[self]
+	if node.chain == nil {
+		node.chain = &Chain{node: node, ChainId: self, persistStore: node.persistStore}
+		node.chains.m[self] = node.chain
+	}
+	node.chains.Unlock()
+}
+
+func (node *Node) VerifC10FilterLeadingNodes(all []*CNode) ([]*CNode, map[crypto.Hash]bool) {
+	return node.filterLeadingNodes(all)
+}
+
+func (node *Node) VerifC10PopAndProcessCacheQueue() int { return node.popAndProcessCacheQueue() }
+
+func (node *Node) VerifC10FindSnapshotNodes(all, leading []*CNode, filter map[crypto.Hash]bool, hash crypto.Hash) []crypto.Hash {
+	return node.findSnapshotNodes(all, leading, filter, clock.Now(), hash)
+}
+
+func (node *Node) VerifC10ChainCanProposeSnapshot(all []*CNode, id crypto.Hash, timestamp uint64) bool {
+	return node.chainCanProposeSnapshot(all, node.getChain(id), timestamp)
+}
+
+func (node *Node) VerifC10ListWorkingAcceptedNodes(timestamp uint64) []*CNode {
+	return node.ListWorkingAcceptedNodes(timestamp)
 }
